@@ -30,12 +30,12 @@ Hash3(e, m, st1, d) == /\ tst' = [k |-> e.gen.k, seed |-> e.gen.seed, n |-> st1.
 Hash2(e, m, st1) == Hash3(e, m, st1, Finish(st1, m))
 Hash1(e, m) == Hash2(e, m, AbsorbTo(Base(e, Len(m) \div 64), m, Len(m) \div 64))
 \* --- sm3.block (hook): block index e.idx (0-based) of the generated message; chaining values before/after as 8 words ---
-BlockBytes(e) == TLCEval([i \in 1..64 |-> GenByte(e.gen.k, e.gen.seed, e.idx * 64 + (i - 1))])
+BlockBytes(e) == TLCEval([i \in 1..64 |-> GenByteAt(e.gen.k, e.gen.seed, e.idx, i - 1)])
 W8(bytes) == << WOfBytes(bytes,0), WOfBytes(bytes,4), WOfBytes(bytes,8), WOfBytes(bytes,12), WOfBytes(bytes,16), WOfBytes(bytes,20), WOfBytes(bytes,24), WOfBytes(bytes,28) >>
 Block1(e) == /\ tst' = tst
              /\ tlast' = Verdict(e, CF(W8(e.vin), BlockBytes(e), 0) = W8(e.vout), "hook-block", "wrong-compression")
 \* --- sm3.final (hook): giant message of e.lhi*2^24 + e.llo bytes; vin = chaining value after all full blocks ---
-TailBytes(e) == TLCEval([i \in 1..(e.llo % 64) |-> GenByte(e.gen.k, e.gen.seed, (e.nfull * 64) + (i - 1))])
+TailBytes(e) == TLCEval([i \in 1..(e.llo % 64) |-> GenByteAt(e.gen.k, e.gen.seed, e.nfull, i - 1)])
 Final2(e, pt) == /\ tst' = tst
                  /\ tlast' = Verdict(e, DigestBytes(IterG(W8(e.vin), pt, 0, Len(pt) \div 64)) = e.digest, "giant-final", "wrong-digest")
 Final1(e) == Final2(e, TLCEval(PadTail(TailBytes(e), e.lhi, e.llo)))
